@@ -33,6 +33,9 @@ def make_case(rng, cfg):
         spec = G.template_program(rng, name)
         spec['managers'] = rng.choice(cfg.get('managers', [0]))
         spec['store'] = rng.choice(cfg.get('stores', ['none']))
+        if cfg.get('gated_collab') and rng.random() < cfg['gated_collab']:
+            spec['mgr_gated'] = spec['managers'] > 0 and rng.random() < 0.7
+            spec['store_gated'] = spec['store'] != 'none' and rng.random() < 0.7
         R.ps.spec_defaults(spec)
         return 'template:' + name, spec
     kw = dict(G.PROFILES[prof])
